@@ -246,6 +246,20 @@ def run_task(source, contracts, loops, qualname, natives=None, timeout_ms=10000,
                 res.paths += 1
                 if contract is None:
                     continue
+                if contract.pure_args:
+                    roots = [env[a] for a in contract.pure_args if isinstance(env.get(a), vals.Ref)]
+                    reach = set()
+                    todo = [r.oid for r in roots]
+                    while todo:
+                        o = todo.pop()
+                        if o in reach or o not in before:
+                            continue
+                        reach.add(o)
+                        kind, old = before[o]
+                        vs = old if kind == "seq" else (list(old.values()) if kind == "map" else [])
+                        todo += [v.oid for v in vs if isinstance(v, vals.Ref)]
+                    ch = heap_changes({o: before[o] for o in reach}, st1)
+                    ctx.oblige(st1, "frame-write", "arguments-unchanged" + (": " + "; ".join(ch) if ch else ""), z3.BoolVal(len(ch) == 0), fnode)
                 if contract.pure:
                     ch = heap_changes(before, st1)
                     ctx.oblige(st1, "frame-write", "modifies-nothing" + (": " + "; ".join(ch) if ch else ""), z3.BoolVal(len(ch) == 0), fnode)
